@@ -1364,6 +1364,22 @@ func (f *Frame) checkAnchors(c *cursor, b *ssa.BasicBlock, idx int, in ssa.Instr
 			} else {
 				f.sites[s.Name] = c.reach
 			}
+			if call, ok := in.(*ssa.Call); ok {
+				if f.siteArgs == nil {
+					f.siteArgs = map[string]sval{}
+				}
+				for i, av := range call.Call.Args {
+					if _, isLv := f.lvals[av]; isLv {
+						continue
+					}
+					key := fmt.Sprintf("%s.%d", s.Name, i)
+					v := f.val(av)
+					if old, ok := f.siteArgs[key]; ok && old.t.Sort == v.Sort {
+						v = f.e.define("sitearg."+s.Name, ite(c.reach, v, old.t))
+					}
+					f.siteArgs[key] = sval{v, av.Type()}
+				}
+			}
 		}
 	}
 	for _, a := range sp.Asserts {
@@ -1417,7 +1433,14 @@ func calleeName(cc *ssa.CallCommon) string {
 // callOrdinal: position of a call among the calls of the same callee, in
 // the static order of the function's instructions.
 func (f *Frame) callOrdinal(in ssa.Instruction, callee string) int {
-	n := 0
+	// ordinal in source order (position of the call), not SSA block order
+	type cp struct {
+		in  ssa.Instruction
+		pos token.Pos
+		seq int
+	}
+	var cs []cp
+	seq := 0
 	for _, b := range f.fn.Blocks {
 		for _, i2 := range b.Instrs {
 			var cc *ssa.CallCommon
@@ -1428,11 +1451,20 @@ func (f *Frame) callOrdinal(in ssa.Instruction, callee string) int {
 				cc = &x.Call
 			}
 			if cc != nil && calleeName(cc) == callee {
-				n++
+				seq++
+				cs = append(cs, cp{i2, i2.Pos(), seq})
 			}
-			if i2 == in {
-				return n
-			}
+		}
+	}
+	sort.SliceStable(cs, func(a, b int) bool {
+		if cs[a].pos != cs[b].pos {
+			return cs[a].pos < cs[b].pos
+		}
+		return cs[a].seq < cs[b].seq
+	})
+	for k, c := range cs {
+		if c.in == in {
+			return k + 1
 		}
 	}
 	return -1
